@@ -305,7 +305,11 @@ func checkEffects(r *Run, prog *Program, a *Anchors, pfx string, evalOnly bool) 
 				case modPath + ".options":
 					// value copies in locals are not shared; only an escaping allocation can be handed to option closures
 					if al.Heap {
-						r.Check(pfx+".per-call-allocation", "options@"+fn.Name(), prog.pos(al.Pos()), fn == optRoles(prog).getOpts || fn == optRoles(prog).getDefault, "an escaping options struct is allocated outside getOpts/getDefaultOptions")
+						okAl := fn == optRoles(prog).getOpts || fn == optRoles(prog).getDefault
+						if !okAl && fn == a.CollEval && notKept(al) {
+							okAl = true // the option set of one fold step: a local that option functions are applied to, never stored
+						}
+						r.Check(pfx+".per-call-allocation", "options@"+fn.Name(), prog.pos(al.Pos()), okAl, "an escaping options struct is allocated outside getOpts/getDefaultOptions")
 					}
 				}
 			}
@@ -425,4 +429,29 @@ func init() {
 		r.Explain = "Decides: Evaluate and Execute write only memory they allocate (so neither the datum nor anything reachable from it, nor the evaluator, filter or tree, is modified and nothing is carried to the next call — hence the next call returns what a fresh evaluator returns); reflect mutators are applied only to values rooted at reflect.MakeSlice/MakeMap/Append results of the same function; Filter returns Interface() of such a fresh container (C17 shape rule imported); no field of Evaluator or Filter has a writer outside its constructor; the syntax tree is written only by the parser's actions and by the idempotent regexp memo before publication; Expression() returns a field whose only writer stores CreateEvaluator's expression parameter itself, which is also the string parsed. NOT decided: mutation performed by a user hook."
 		r.Assume = append(r.Assume, "pointerstructure.Get and reflect's readers do not modify the value they inspect")
 	})
+}
+
+// notKept: the address of the local is used to read and write it and is handed to calls and closures, but never stored
+// into memory or wrapped in an interface: it does not outlive the call.
+func notKept(al *ssa.Alloc) bool {
+	refs := al.Referrers()
+	if refs == nil {
+		return true
+	}
+	for _, u := range *refs {
+		switch x := u.(type) {
+		case *ssa.FieldAddr, *ssa.UnOp, *ssa.DebugRef, *ssa.MakeClosure:
+		case *ssa.Store:
+			if x.Val == ssa.Value(al) {
+				return false
+			}
+		case ssa.CallInstruction:
+			if _, isGo := x.(*ssa.Go); isGo {
+				return false
+			}
+		default:
+			return false
+		}
+	}
+	return true
 }
